@@ -66,7 +66,9 @@ func kindsFor(op byte) []simdisk.Kind {
 func ioFaults(r *Run) {
 	t := r.T
 	par1Set := t.Bool(1, 3, "par1")
-	w := GenWorld(r, GenOpts{Par1: par1Set, MaxFiles: 5, SmallOnly: true, MaxR: 5})
+	// every scenario runs its operation dozens of times: keep the slice
+	// size moderate (gopar's scan costs O(S^2) on a damaged file tail)
+	w := GenWorld(r, GenOpts{Par1: par1Set, MaxFiles: 5, SmallOnly: true, MaxR: 5, SliceSizes: []int{4, 8, 12, 16, 20, 64, 100, 256, 1024, 4096}})
 	sc := &ioScenario{w: w, index: w.Index, paths: w.FilePaths(), dc: t.Bool(1, 2, "dc"), g: []int{1, 2, 4}[t.Draw(3, "g")]}
 	sc.op = []string{"create", "verify", "repair"}[t.Pick([]int{2, 2, 5}, "op")]
 	stateClass := "fresh"
